@@ -367,9 +367,11 @@ VEX_REG_CLASSES = {"rvm": (0x72, 0x75), "rm": (0x68, 0x6B), "rvmi": (0x7A, 0x7C)
                    # X86Push / X86Pop with a general-purpose register: the short `50+r` / `58+r` forms (register in the opcode byte)
                    "lopreg": (0x33, 0x35),
                    # X86Arith `op reg, r/m` direction (opcode + 2), used by the class for a memory source
-                   "larithrm": (0x19,)}
+                   "larithrm": (0x19,),
+                   # X86Mov between general-purpose registers / memory: `mov r/m, reg` (88 / 89) and `mov reg, r/m` (8A / 8B)
+                   "lmov": (0x2C,), "lmovrm": (0x2C,)}
 SHAPE_ROLES = {"rvm": ["reg", "vvvv", "rm"], "rm": ["reg", "rm"], "rvmi": ["reg", "vvvv", "rm", "imm"], "rmi": ["reg", "rm", "imm"],
-               "lrm": ["reg", "rm"], "lmr": ["rm", "reg"], "lrmi": ["reg", "rm", "imm"], "lop": None, "larith": ["rm", "reg"], "lrot": ["rm", "imm"], "larithi8": ["rm", "imm"], "lopreg": ["opc"], "larithrm": ["reg", "rm"]}
+               "lrm": ["reg", "rm"], "lmr": ["rm", "reg"], "lrmi": ["reg", "rm", "imm"], "lop": None, "larith": ["rm", "reg"], "lrot": ["rm", "imm"], "larithi8": ["rm", "imm"], "lopreg": ["opc"], "larithrm": ["reg", "rm"], "lmov": ["rm", "reg"], "lmovrm": ["reg", "rm"]}
 
 
 def class_rows_lean(kept, rows, chunk=96):
@@ -394,6 +396,8 @@ def class_rows_lean(kept, rows, chunk=96):
                 continue
             if shape == "larithi8" and f["operands"][0]["reg"] != "r8":
                 continue
+            if shape in ("lmov", "lmovrm") and any(o["reg"] not in ("r8", "r16", "r32", "r64") for o in f["operands"]):
+                continue
             if legacy:
                 pass
             elif (f["prefix"] == "EVEX" and not int(r[4], 16) & 0x800000) or (f["prefix"] == "VEX" and not int(r[4], 16) & 0x400000):
@@ -407,7 +411,7 @@ def class_rows_lean(kept, rows, chunk=96):
                     if o["imm"] != 8:
                         okf = False
                     continue
-                if o["reg"] not in CLASS or (len(CLASS[o["reg"]]) != 1 and shape not in ("larith", "lrot", "larithi8", "larithrm")) or o["implicit"]:
+                if o["reg"] not in CLASS or (len(CLASS[o["reg"]]) != 1 and shape not in ("larith", "lrot", "larithi8", "larithrm", "lmov", "lmovrm")) or o["implicit"]:
                     okf = False
                     break
                 kinds.append(CLASS[o["reg"]])
